@@ -131,6 +131,13 @@ def classify_site(call: ast.Call, fn: ast.FunctionDef) -> tuple[bool, str]:
         if fn.name != "handle_fstring_progs":
             return False, "a fixed delimiter outside handle_fstring_progs"
         me = _boundaries(fn, norm_stmt(call))
+        # a local that names an access path at the top of the function (`endprog = state.end_progs[-1]`) and the path itself are
+        # the same thing to this comparison: copy propagation may have expanded one side and (correctly) not the other
+        aliases = {norm_stmt(st.value): st.targets[0].id for st in fn.body
+                   if isinstance(st, ast.Assign) and len(st.targets) == 1 and isinstance(st.targets[0], ast.Name)
+                   and isinstance(st.value, (ast.Attribute, ast.Subscript))}
+        for txt, nm in aliases.items():
+            me = [x.replace(txt, nm) for x in me]
         if me and all(x == f"end - {width}" for x in me):
             return True, "delimiter at the position the preceding middle token ended"
         return False, f"delimiter of width {width} at state.pos..end but the middle part before it ends at {sorted(me)}"
